@@ -2,20 +2,55 @@ package main
 
 import (
 	"fmt"
-	"runtime/debug"
 
 	"github.com/cosmos/cosmos-proto/testpb"
 	"google.golang.org/protobuf/proto"
+	"google.golang.org/protobuf/reflect/protoreflect"
+	"google.golang.org/protobuf/reflect/protoregistry"
+	"google.golang.org/protobuf/runtime/protoimpl"
+	"google.golang.org/protobuf/types/dynamicpb"
 )
 
-func main() {
+func try(name string, f func()) {
 	defer func() {
 		if e := recover(); e != nil {
-			fmt.Println("PANIC", e)
-			fmt.Println(string(debug.Stack()))
+			fmt.Println(name, "=> PANIC:", e)
 		}
 	}()
-	a := &testpb.A{MAP: map[string]*testpb.B{"x": nil}}
-	b, err := proto.Marshal(a)
-	fmt.Println(b, err)
+	f()
+}
+
+func main() {
+	a := &testpb.A{}
+	md := a.ProtoReflect().Descriptor()
+	fdMsg := md.Fields().ByName("MESSAGE")
+	fdOB := md.Fields().ByName("ONEOF_B")
+	mt, _ := protoregistry.GlobalTypes.FindMessageByName(md.FullName())
+	info := mt.(*protoimpl.MessageInfo)
+	slow := func() protoreflect.Message { return info.MessageOf(&testpb.A{}) }
+	dyn := func() protoreflect.Message { return dynamicpb.NewMessage(md) }
+	fast := func() protoreflect.Message { return (&testpb.A{}).ProtoReflect() }
+	for _, im := range []struct {
+		n string
+		f func() protoreflect.Message
+	}{{"fast", fast}, {"slow", slow}, {"dyn", dyn}} {
+		m := im.f()
+		inv := m.Get(fdMsg) // invalid read-only message
+		try(im.n+" Set(MESSAGE, invalid)", func() { m.Set(fdMsg, inv); fmt.Println(im.n, "Set(MESSAGE, invalid) ok; Has =", m.Has(fdMsg)) })
+		m2 := im.f()
+		try(im.n+" Set(ONEOF_B, invalid)", func() {
+			m2.Set(fdOB, m2.Get(fdOB))
+			fmt.Println(im.n, "Set(ONEOF_B, invalid) ok; Has =", m2.Has(fdOB), "which =", m2.WhichOneof(md.Oneofs().Get(0)))
+		})
+	}
+	try("fast nil GetUnknown", func() { fmt.Println("fast nil GetUnknown:", (*testpb.A)(nil).ProtoReflect().GetUnknown()) })
+	try("slow nil GetUnknown", func() { fmt.Println("slow nil GetUnknown:", info.MessageOf((*testpb.A)(nil)).GetUnknown()) })
+	try("fast Equal nil elem", func() {
+		x := &testpb.A{LIST: []*testpb.B{nil}}
+		fmt.Println("Equal:", proto.Equal(x, x), "Clone:", proto.Clone(x))
+	})
+	try("fast Clone nil map value", func() {
+		x := &testpb.A{MAP: map[string]*testpb.B{"k": nil}}
+		fmt.Println("Clone:", proto.Clone(x), proto.Equal(x, proto.Clone(x)))
+	})
 }
